@@ -169,6 +169,18 @@ void wop(string *a) {
       else rec("WMOVE " + a[1] + " " + a[2] + " skip");
     }
     break;
+  case "wvol":    // wvol <n> <how> <tag>: a virtual object whose name has n letters (too long for a command line), loaded and printed
+    {
+      mixed e; object q; string nm;
+      nm = "/v/" + repeat_string("a", to_int(a[1]));
+      master()->set_vo(nm, a[2]);
+      a[3] = master()->fresh_tag(a[3]);
+      e = catch(q = load_object(nm));
+      if (q && !q->me_tagged()) q->set_tag(a[3]);
+      rec("WNEW " + a[3] + " wload " + nm + " ok=" + (q ? file_name(q) : "0") + " tag=" + (q ? q->me() : "0") + " err=" + (e ? 1 : 0));
+      if (q) { write(q); write("\n"); }
+    }
+    break;
   case "wvo":     // wvo <name> <how>: what master::compile_object answers for the virtual name
     master()->set_vo(a[1], a[2]);
     break;
@@ -838,7 +850,7 @@ void do_op(string op) {
       if (objectp(r) && r != this_object()) destruct(r);
     }
     break;
-  case "wclone": case "wload": case "whold": case "wdump": case "walk": case "lname": case "wmove": case "wmoves": case "wdest": case "wvo":
+  case "wclone": case "wload": case "whold": case "wdump": case "walk": case "lname": case "wmove": case "wmoves": case "wdest": case "wvo": case "wvol":
     wop(a);
     break;
   case "mk": case "mkown": case "put": case "cyc": case "uncyc": case "share": case "cov": case "covf": case "itv": case "itve": case "drop": case "clearall": case "rb": case "many": case "use": case "memstat": case "rcall": case "dslot": case "dkids": case "pinfo": case "pdump":
